@@ -829,7 +829,23 @@ func init() {
 			}
 			p.Actions = append(p.Actions, Action{At: time.Duration(i) * r.Dur(0, 2*p.H), Kind: AStart, Inst: i})
 		}
+		if n > 1 && r.Bool(0.5) {
+			// the stopping instance joins late: it meets a leader (and, with takeover enabled and
+			// a higher priority, stops in the middle of its takeover read or write)
+			p.Actions[0].At = r.Dur(p.H, 5*p.H)
+			if r.Bool(0.6) {
+				p.Insts[0].Prio, p.Insts[0].Takeover = 5, true
+			}
+		}
 		p.Store = healthyStore(r, Pick(r, []time.Duration{p.H / 2, p.H, 2 * sec}))
+		// a client configured with a long request time-out and a store that answers some
+		// operations only after Stop's 5 s cap: the operation in flight may finish, nothing new
+		// may follow it
+		if r.Bool(0.25) {
+			p.Store.ClientTimeout = 15 * sec
+			from := r.Dur(0, 3*p.H)
+			p.Faults = append(p.Faults, Fault{Kind: FSlow, Inst: 0, Op: Pick(r, []string{"get", "create", "update", ""}), From: from, To: from + r.Dur(p.H, 10*sec), Arg: r.Dur(5*sec, 9*sec), Prob: 0.7})
+		}
 		return p
 	}
 }
